@@ -400,3 +400,12 @@ func VTextOfPrefix(op PrefixOperator) string { return lexer.VOpText(VTokOfPrefix
     requires self <= IntoSomePrefixOperator
     ensures @reads-back result == VTextOfPrefix(self) && VIsPrefixTok(VTokOfPrefix(self))
 @*/
+
+// A compound assignment `a op= b` applies the operator `op` it is spelled with.
+
+/*@ func (self AssignOperator) IntoInfixOperator
+    serves C01, C04
+    requires self != StdAssignOperatorKind && self <= BitXorAssignOperatorKind
+    ensures @operator-of-compound-assignment (self == PlusAssignOperatorKind ==> result == PlusInfixOperator) && (self == MinusAssignOperatorKind ==> result == MinusInfixOperator) && (self == MultiplyAssignOperatorKind ==> result == MultiplyInfixOperator) && (self == DivideAssignOperatorKind ==> result == DivideInfixOperator) && (self == ModuloAssignOperatorKind ==> result == ModuloInfixOperator) && (self == PowerAssignOperatorKind ==> result == PowerInfixOperator) && (self == ShiftLeftAssignOperatorKind ==> result == ShiftLeftInfixOperator) && (self == ShiftRightAssignOperatorKind ==> result == ShiftRightInfixOperator) && (self == BitOrAssignOperatorKind ==> result == BitOrInfixOperator) && (self == BitAndAssignOperatorKind ==> result == BitAndInfixOperator) && (self == BitXorAssignOperatorKind ==> result == BitXorInfixOperator)
+    ensures @is-arithmetic result <= GreaterThanEqualInfixOperator && result != LogicalOrInfixOperator && result != LogicalAndInfixOperator
+@*/
